@@ -22,7 +22,7 @@ from simworld import libcodec, peers, prng, world as W
 ECHO_IF = (uuid.UUID("11111111-2222-3333-4444-555555555555"), 1, 0)
 OTHER_IF = (uuid.UUID("99999999-8888-7777-6666-555555555555"), 2, 1)
 DC = "dc01.domain.test"
-LINE_A, LINE_B = 200_000, 600
+LINE_A, LINE_B = 60_000, 300
 
 
 def _contexts(n_ctx: int, n_tr: int):
